@@ -285,6 +285,7 @@ def emit(o, repo, T):
     # Structural choices (second, static tie of the hand-written A-layer models): DESIGN §2.3, Oblig/Struct*.lean
     # =====================================================================================================
     emit_struct(o, repo, T)
+    emit_struct3(o, repo, T)
 
 
 def _skip_prologue(T, fn, allowed):
@@ -993,3 +994,1055 @@ def emit_struct(o, repo, T):
                 f'def dgcOutW (pad : List Int) (inW kew strideW : Int) : Int := {ow1}\n'
                 f'def dgcOutC (depthwise : Bool) (inC kh kw : Int) : Int := {oc}')
     o.const('dgcspn.SpatialProductLayer', dgc_pads)
+
+
+# =========================================================================================================
+# Third wave (Oblig/Struct3*.lean): code that is modelled by hand and had no extracted fragment yet.
+# Every definition is emitted under a fresh name `S3…`; nothing above is changed.
+# =========================================================================================================
+def emit_struct3(o, repo, T):
+    U = T.Untranslatable
+    node = T.parse_file(repo, 'deeprob/spn/structure/node.py')
+    leaf = T.parse_file(repo, 'deeprob/spn/structure/leaf.py')
+    inference = T.parse_file(repo, 'deeprob/spn/algorithms/inference.py')
+    evaluation = T.parse_file(repo, 'deeprob/spn/algorithms/evaluation.py')
+
+    def args_of(fn, expected, what):
+        names = [a.arg for a in fn.args.args]
+        if len(names) != len(expected) or fn.args.vararg or fn.args.kwarg or fn.args.kwonlyargs:
+            raise U(f'{what}: expected {len(expected)} positional parameters, found {names}')
+        return names
+
+    # ---- (a) C01 / C02: Sum / Product likelihoods, node_likelihood, node_log_likelihood, eval_forward ------------
+    def inner_lik(name, qual, lean, params, env_of, doc):
+        def mk():
+            fn = T.find_func(node, qual)
+            a = args_of(fn, ('self', 'x'), qual)
+            tr = T.TrA(env=env_of(a))
+            body, _ = tr.body_value(fn, want=('num', 'RC'))
+            return (f'/-- `{qual}` on one row (the `(n, 1)` result is read as its single entry): {doc} -/\n'
+                    f'def {lean} {params} : F :=\n  {body}')
+        o.formula(name, mk)
+
+    inner_lik('node.Sum.likelihood', 'Sum.likelihood', 'S3sumLikelihood', '(w x : List F)',
+              lambda a: {a[1]: ('x', 'num', 'RV'), a[0] + '.weights': ('w', 'num', 'P1')},
+              'x = values of the children, w = `self.weights`')
+    inner_lik('node.Product.likelihood', 'Product.likelihood', 'S3productLikelihood', '(x : List F)',
+              lambda a: {a[1]: ('x', 'num', 'RV')}, 'x = values of the children')
+    inner_lik('node.Sum.log_likelihood', 'Sum.log_likelihood', 'S3sumLogLikelihood', '(w x : List F)',
+              lambda a: {a[1]: ('x', 'num', 'RV'), a[0] + '.weights': ('w', 'num', 'P1')},
+              'x = log-values of the children, w = `self.weights`')
+    inner_lik('node.Product.log_likelihood', 'Product.log_likelihood', 'S3productLogLikelihood', '(x : List F)',
+              lambda a: {a[1]: ('x', 'num', 'RV')}, 'x = log-values of the children')
+
+    def node_func(name, qual, method, lean):
+        def mk():
+            fn = T.find_func(inference, qual)
+            a = args_of(fn, ('node', 'x'), qual)
+            def meth(tr, call):
+                if len(call.args) != 1 or call.keywords:
+                    raise U(f'{qual}: {method} is not called with the single argument x')
+                v = tr.tr(call.args[0])
+                if v != ('x', 'num', 'RV'):
+                    raise U(f'{qual}: {method} is not applied to the children values x')
+                return '(nodeMethod x)', 'num', 'RC'
+            tr = T.TrA(env={a[1]: ('x', 'num', 'RV')}, funcs={f'{a[0]}.{method}': meth})
+            body, _ = tr.body_value(fn, want=('num', 'R'))
+            if 'nodeMethod' not in body:
+                raise U(f'{qual}: does not call {a[0]}.{method}')
+            return (f'/-- `inference.{qual}` on one row: `nodeMethod` = `node.{method}` (row-wise), x = values of the children -/\n'
+                    f'def {lean} (nodeMethod : List F → F) (x : List F) : F :=\n  {body}')
+        o.formula(name, mk)
+    node_func('inference.node_likelihood', 'node_likelihood', 'likelihood', 'S3nodeLikelihood')
+    node_func('inference.node_log_likelihood', 'node_log_likelihood', 'log_likelihood', 'S3nodeLogLikelihood')
+
+    def eval_forward():
+        fn = T.find_func(evaluation, 'eval_bottom_up')
+        task = T.nested_func(fn, 'eval_forward')
+        n = T.the([a.arg for a in task.args.args], 'parameter of eval_forward')
+        ifs = [s for s in task.body if isinstance(s, ast.If) and 'isinstance' in ast.unparse(s.test)]
+        br = T.the(ifs, 'isinstance test of eval_forward')
+        if ast.unparse(br.test).replace(' ', '') != f'isinstance({n},Leaf)':
+            raise U('eval_forward: the test is not isinstance(n, Leaf)')
+        # leaf branch: ls[n.id] = leaf_func(n, x[:, n.scope], **kw)
+        lf = T.the(br.body, 'statement of the leaf branch')
+        if ast.unparse(lf).replace(' ', '') != f'ls[{n}.id]=leaf_func({n},x[:,{n}.scope],**leaf_func_kwargs)':
+            raise U('eval_forward: leaf branch is not ls[n.id] = leaf_func(n, x[:, n.scope], **leaf_func_kwargs)')
+        # inner branch: children_ls = np.stack([ls[c.id] for c in n.children], axis=1); ls[n.id] = node_func(n, children_ls, **kw)
+        if len(br.orelse) != 2 or not all(isinstance(s, ast.Assign) for s in br.orelse):
+            raise U('eval_forward: inner branch is not two assignments')
+        st, call = br.orelse
+        stack = st.value
+        if not (isinstance(stack, ast.Call) and (T.dotted_name(stack.func) or '').split('.')[-1] == 'stack' and len(stack.args) == 1):
+            raise U('eval_forward: children values are not np.stack([...], axis=1)')
+        ax = [k.value for k in stack.keywords if k.arg == 'axis'] or stack.args[1:2]
+        if int(T.const_value(T.the(ax, 'axis of np.stack'))) != 1:
+            raise U('eval_forward: np.stack is not along axis 1')
+        tz = T.TrZ(env={n: ('n', 'obj')}, attrs={'id': ('nid', 'item'), 'children': ('children', ('list', 'obj'))},
+                   funcs={})
+        comp = stack.args[0]
+        if not (isinstance(comp, ast.ListComp) and len(comp.generators) == 1 and not comp.generators[0].ifs
+                and isinstance(comp.elt, ast.Subscript) and ast.unparse(comp.elt.value) == 'ls'):
+            raise U('eval_forward: stacked values are not [ls[<id>] for c in <children>]')
+        g = comp.generators[0]
+        xs, elty = tz.seq(tz.tr(g.iter))
+        sub = tz.child(**{g.target.id: (T.lid(g.target.id), elty)})
+        idx, ity = sub.tr(comp.elt.slice)
+        if ity != 'item':
+            raise U('eval_forward: index of ls is not a node id')
+        cname = T.target_key(st.targets[0])
+        if ast.unparse(call).replace(' ', '') != f'ls[{n}.id]=node_func({n},{cname},**node_func_kwargs)':
+            raise U('eval_forward: inner branch does not store node_func(n, <stacked values>, **node_func_kwargs) into ls[n.id]')
+        return ('/-- `eval_bottom_up.eval_forward`, inner-node branch, one row: the value stored into `ls[n.id]`; `ls` = the row of '
+                'values stored so far (by node id), `node_func n` = the inner-node function applied to the stacked children values -/\n'
+                'def S3evalForwardInner {N : Type} (nid : N → Nat) (children : N → List N) (node_func : N → List F → F) (ls : Nat → F) (n : N) : F :=\n'
+                f'  node_func n ({xs}.map (fun {T.lid(g.target.id)} => ls {idx}))')
+    o.formula('evaluation.eval_forward', eval_forward)
+
+    # ---- (a) C01 / C02: Bernoulli / Categorical likelihoods with the missing-value mask -------------------------------
+    def cat_distribution():
+        """every assignment of `self.distribution` in class Categorical is None or ss.rv_discrete(values=(self.categories, self.probabilities))"""
+        cls = T.the([c for c in leaf.body if isinstance(c, ast.ClassDef) and c.name == 'Categorical'], 'class Categorical')
+        n = 0
+        for fn in [f for f in cls.body if isinstance(f, ast.FunctionDef)]:
+            for v in T.assignments(fn, 'self.distribution'):
+                t = ast.unparse(v).replace(' ', '')
+                if t == 'None':
+                    continue
+                if t not in ('ss.rv_discrete(values=(self.categories,self.probabilities))', 'scipy.stats.rv_discrete(values=(self.categories,self.probabilities))'):
+                    raise U(f'Categorical.{fn.name}: self.distribution = {ast.unparse(v)} is not rv_discrete(values=(self.categories, self.probabilities))')
+                n += 1
+        if n == 0:
+            raise U('Categorical: self.distribution is never built')
+
+    def leaf_lik(name, qual, lean, params, syms, funcs_of, doc, pre=None):
+        def mk():
+            if pre:
+                pre()
+            fn = T.find_func(leaf, qual)
+            a = args_of(fn, ('self', 'x'), qual)
+            tr = T.TrA(env={a[1]: ('x', 'opt', 'RC')}, syms=syms(a[0]), funcs=funcs_of(a[0]))
+            body, _ = tr.body_value(fn, want=('num', 'RC'))
+            return (f'/-- `{qual}` on one row: x = the data entry of the leaf\'s variable (`none` = NaN); {doc} -/\n'
+                    f'def {lean} {params} (x : Option Nat) : F :=\n  {body}')
+        o.formula(name, mk)
+
+    def pmf2(lean_fn, log):
+        def h(tr, call):
+            if len(call.args) != 2 or call.keywords:
+                raise U('pmf call: expected (values, p)')
+            k, p = tr.tr(call.args[0]), tr.tr(call.args[1])
+            if k[1] != 'nat' or p != ('p', 'num', 'P0'):
+                raise U('pmf call: arguments are not (observed values, self.p)')
+            t = f'(Gen.Py3.{lean_fn} {k[0]} p)'
+            return (f'(E.log {t})' if log else t), 'num', k[2]
+        return h
+
+    def pmf1(log):
+        def h(tr, call):
+            if len(call.args) != 1 or call.keywords:
+                raise U('pmf call: expected (values)')
+            k = tr.tr(call.args[0])
+            if k[1] != 'nat':
+                raise U('pmf call: argument is not the observed values')
+            t = f'(Gen.Py3.rvDiscretePmf categories probabilities {k[0]})'
+            return (f'(E.log {t})' if log else t), 'num', k[2]
+        return h
+
+    bern_syms = lambda s: {s + '.p': ('p', 'num', 'P0')}
+    leaf_lik('leaf.Bernoulli.likelihood', 'Bernoulli.likelihood', 'S3bernoulliLikelihood', '(p : F)', bern_syms,
+             lambda s: {'ss.bernoulli.pmf': pmf2('bernoulliPmf', False)}, 'p = `self.p`')
+    leaf_lik('leaf.Bernoulli.log_likelihood', 'Bernoulli.log_likelihood', 'S3bernoulliLogLikelihood', '(p : F)', bern_syms,
+             lambda s: {'ss.bernoulli.logpmf': pmf2('bernoulliPmf', True)}, 'p = `self.p`; `logpmf` = `log ∘ pmf`')
+    leaf_lik('leaf.Categorical.likelihood', 'Categorical.likelihood', 'S3categoricalLikelihood',
+             '(categories : List Nat) (probabilities : List F)', lambda s: {},
+             lambda s: {s + '.distribution.pmf': pmf1(False)},
+             '`self.distribution` = `rv_discrete(values=(self.categories, self.probabilities))` at every assignment', pre=cat_distribution)
+    leaf_lik('leaf.Categorical.log_likelihood', 'Categorical.log_likelihood', 'S3categoricalLogLikelihood',
+             '(categories : List Nat) (probabilities : List F)', lambda s: {},
+             lambda s: {s + '.distribution.logpmf': pmf1(True)},
+             '`self.distribution` = `rv_discrete(values=(self.categories, self.probabilities))`; `logpmf` = `log ∘ pmf`', pre=cat_distribution)
+
+    # ---- (b) C05 / C04: split_rows_clusters, split_cols_clusters -------------------------------------------------------
+    rows_py = T.parse_file(repo, 'deeprob/spn/learning/splitting/rows.py')
+    cols_py = T.parse_file(repo, 'deeprob/spn/learning/splitting/cols.py')
+    learnspn = T.parse_file(repo, 'deeprob/spn/learning/learnspn.py')
+
+    def split_clusters(name, tree, qual, params, env, want, leans, sig, doc):
+        def mk():
+            fn = T.find_func(tree, qual)
+            a = args_of(fn, params, qual)
+            stmts = _skip_prologue(T, fn, [])
+            loop = T.the([s for s in stmts if isinstance(s, ast.For)], f'{qual}: for loop')
+            k = stmts.index(loop)
+            ret = stmts[k + 1:]
+            if not (len(ret) == 1 and isinstance(ret[0], ast.Return) and isinstance(ret[0].value, ast.Tuple)
+                    and all(isinstance(x, ast.Name) for x in ret[0].value.elts) and len(ret[0].value.elts) == 2):
+                raise U(f'{qual}: the loop is not followed by `return <list>, <list>`')
+            accs = [x.id for x in ret[0].value.elts]
+            pre = []
+            for st in stmts[:k]:
+                if isinstance(st, ast.Assign) and isinstance(st.targets[0], ast.Name) and st.targets[0].id in accs:
+                    if ast.unparse(st.value).replace(' ', '') not in ('list()', '[]'):
+                        raise U(f'{qual}: {st.targets[0].id} does not start empty')
+                else:
+                    pre.append(st)
+            if sorted(st.targets[0].id for st in stmts[:k] if isinstance(st, ast.Assign) and isinstance(st.targets[0], ast.Name) and st.targets[0].id in accs) != sorted(accs):
+                raise U(f'{qual}: the returned lists are not both initialised before the loop')
+            tr = T.TrZ3(env={a[i]: v for i, v in env.items()}, funcs={'np.unique': ('Py3.unique', None)}, transparent=('tolist',))
+            got = T.accumulate_loop(tr, pre, loop, accs)
+            out = []
+            for acc, w, (lean, ty, d) in zip(accs, want, leans):
+                term, t = got[acc]
+                if t != ('list', w):
+                    raise U(f'{qual}: returned list `{acc}` holds {t[1]}, expected {w} (order of the returned pair changed?)')
+                out.append(f'/-- `{qual}`: {d} — {doc} -/\ndef {lean} {sig} : {ty} :=\n  {term}')
+            return '\n'.join(out)
+        o.const(name, mk)
+
+    split_clusters('rows.split_rows_clusters', rows_py, 'split_rows_clusters', ('data', 'clusters'),
+                   {0: ('data', ('list', 'row')), 1: ('clusters', ('list', 'int'))}, [('list', 'row'), 'ratio'],
+                   [('S3splitRowsSlices', 'List (List β)', 'first component of the returned pair (the slices)'),
+                    ('S3splitRowsWeights', 'List (Int × Int)', 'second component (the weights, each as the exact pair (numerator, denominator) of the quotient)')],
+                   '{β : Type} (data : List β) (clusters : List Int)', 'data = the rows, clusters = one label per row')
+    split_clusters('cols.split_cols_clusters', cols_py, 'split_cols_clusters', ('data', 'clusters', 'scope'),
+                   {0: ('data', ('clist', 'col')), 1: ('clusters', ('list', 'int')), 2: ('scope', ('list', 'item'))},
+                   [('clist', 'col'), ('list', 'item')],
+                   [('S3splitColsSlices', 'List (List β)', 'first component of the returned pair (the column slices)'),
+                    ('S3splitColsScopes', 'List (List Nat)', 'second component (the scopes)')],
+                   '{β : Type} (data : List β) (clusters : List Int) (scope : List Nat)',
+                   'data = the columns, clusters = one label per column')
+
+    # ---- (b) C05 / C04: learn_spn — Task records, re-queue, sub-tasks, child attachment of every operation ------------------
+    TASK_TYPES = {'Node': ('N', 'node'), 'np.ndarray': ('D', 'data'), 'List[int]': ('S', 'scope'), 'bool': ('Bool', 'bool')}
+
+    def task_fields():
+        cls = T.the([c for c in learnspn.body if isinstance(c, ast.ClassDef) and c.name == 'Task'], 'class Task')
+        if [ast.unparse(b) for b in cls.bases] != ['NamedTuple']:
+            raise U('class Task is not a NamedTuple')
+        fields = []
+        for st in cls.body:
+            if isinstance(st, ast.Expr) and isinstance(st.value, ast.Constant):
+                continue
+            if not (isinstance(st, ast.AnnAssign) and isinstance(st.target, ast.Name)):
+                raise U('class Task: statement that is not a field declaration')
+            ann = ast.unparse(st.annotation)
+            if ann not in TASK_TYPES:
+                raise U(f'class Task: field {st.target.id} of unknown type {ann}')
+            dflt = None
+            if st.value is not None:
+                if not (isinstance(st.value, ast.Constant) and isinstance(st.value.value, bool)):
+                    raise U(f'class Task: default of {st.target.id} is not a Boolean literal')
+                dflt = st.value.value
+            fields.append((st.target.id, TASK_TYPES[ann], dflt))
+        return fields
+
+    def task_struct():
+        fs = task_fields()
+        lines = [f'  {n} : {lt}' + ('' if d is None else f' := {"true" if d else "false"}') for n, (lt, _), d in fs]
+        return ('/-- `learnspn.Task` (NamedTuple): fields in positional order with their defaults; N = nodes, D = data slices, S = scopes -/\n'
+                'structure S3Task (N D S : Type) where\n' + '\n'.join(lines))
+    o.const('learnspn.Task', task_struct)
+
+    def task_tr(extra_env=None, syms=None):
+        fs = task_fields()
+        attrs = {n: (f'S3Task.{n}', ty) for n, (_, ty), _ in fs}
+        env = {'task': ('task', 'obj')}
+        env.update(extra_env or {})
+        return T.TrZ3(env=env, attrs=attrs, syms=syms or {}), fs
+
+    def task_literal(tr, fs, call):
+        if not (isinstance(call, ast.Call) and T.dotted_name(call.func) == 'Task'):
+            raise U('not a Task(...) construction: ' + ast.unparse(call))
+        if len(call.args) > len(fs):
+            raise U('Task(...): too many positional arguments')
+        given = {}
+        for (n, _, _), a in zip(fs, call.args):
+            given[n] = a
+        for k in call.keywords:
+            if k.arg is None or k.arg in given or k.arg not in [n for n, _, _ in fs]:
+                raise U('Task(...): bad keyword ' + str(k.arg))
+            given[k.arg] = k.value
+        parts = []
+        for n, (_, ty), d in fs:
+            if n in given:
+                t, tty = tr.tr(given[n])
+                if tty != ty:
+                    raise U(f'Task(...): field {n} receives a value of kind {tty}, expected {ty}: ' + ast.unparse(given[n]))
+            elif d is None:
+                raise U(f'Task(...): field {n} is not given')
+            else:
+                t = 'true' if d else 'false'
+            parts.append(f'{n} := {t}')
+        return '{ ' + ', '.join(parts) + ' }'
+
+    def learn_branches():
+        fn = T.find_func(learnspn, 'learn_spn')
+        loop = T.the([s for s in fn.body if isinstance(s, ast.While)], 'while loop of learn_spn')
+        if ast.unparse(loop.test) != 'tasks':
+            raise U('learn_spn: the loop is not `while tasks:`')
+        chain = T.the([s for s in loop.body if isinstance(s, ast.If) and ast.unparse(s.test).replace(' ', '').startswith('op==OperationKind.')],
+                      'learn_spn: if-chain on the operation')
+        br, cur = {}, chain
+        while True:
+            br[ast.unparse(cur.test).replace(' ', '')[len('op==OperationKind.'):]] = cur.body
+            if len(cur.orelse) == 1 and isinstance(cur.orelse[0], ast.If):
+                cur = cur.orelse[0]
+            else:
+                if not (len(cur.orelse) == 1 and isinstance(cur.orelse[0], ast.Raise)):
+                    raise U('learn_spn: the chain of operations does not end with a raise')
+                break
+        # the mask of the uninformative features
+        zs = [t for st in loop.body if isinstance(st, ast.Assign) for t in st.targets
+              if ast.unparse(st.value).replace(' ', '') == 'np.isclose(np.var(task.data,axis=0),0.0)']
+        z = ast.unparse(T.the(zs, 'learn_spn: zero-variance mask'))
+        pops = [st for st in loop.body if isinstance(st, ast.Assign) and ast.unparse(st.targets[0]) == 'task']
+        pop = ast.unparse(T.the(pops, 'learn_spn: task = …').value).replace(' ', '')
+        if not loop.body or pops[0] is not loop.body[0]:
+            raise U('learn_spn: the loop does not start by taking the next task')
+        return br, z, pop
+
+    def is_call_stmt(st, text_prefix):
+        return isinstance(st, ast.Expr) and isinstance(st.value, ast.Call) and ast.unparse(st.value.func).replace(' ', '') == text_prefix
+
+    def interp(body, kind, z):
+        """events of one operation branch, in source order"""
+        ev = []
+        bound = {}      # local name -> role
+        for st in body:
+            txt = ast.unparse(st).replace(' ', '')
+            if isinstance(st, ast.Assign) and isinstance(st.targets[0], ast.Tuple) and [ast.unparse(x) for x in st.targets[0].elts] == ['dists', 'doms'] \
+                    and not any(isinstance(c, ast.Call) for c in ast.walk(st.value)):
+                continue                                   # distributions / domains of the scope: not modelled (leaf learning is abstract)
+            if isinstance(st, ast.Assign) and isinstance(st.value, ast.Call):
+                f = T.dotted_name(st.value.func) or ''
+                tg = st.targets[0]
+                if f in ('split_rows_func', 'split_cols_func') and isinstance(tg, ast.Name):
+                    if not st.value.args or ast.unparse(st.value.args[0]) != 'task.data':
+                        raise U(f'{kind}: the splitter is not consulted on task.data')
+                    bound[tg.id] = 'clusters'
+                    ev.append(('oracle', f))
+                    continue
+                if f in ('split_rows_clusters', 'split_cols_clusters') and isinstance(tg, ast.Tuple) and len(tg.elts) == 2:
+                    args = [ast.unparse(a) for a in st.value.args]
+                    want = ['task.data', '<clusters>'] + (['task.scope'] if f == 'split_cols_clusters' else [])
+                    got = [('<clusters>' if bound.get(a) == 'clusters' else a) for a in args]
+                    if got != want or st.value.keywords:
+                        raise U(f'{kind}: {f} is not called with {want}')
+                    bound[tg.elts[0].id] = 'slices'
+                    bound[tg.elts[1].id] = 'weights' if f == 'split_rows_clusters' else 'scopes'
+                    ev.append(('split', f))
+                    continue
+                if f in ('Sum', 'Product') and isinstance(tg, ast.Name):
+                    bound[tg.id] = 'node'
+                    ev.append(('node', f, st.value, tg.id))
+                    continue
+                if f in ('learn_leaf_func', 'learn_naive_factorization') and isinstance(tg, ast.Name):
+                    bound[tg.id] = 'learned'
+                    ev.append(('learned', f, st.value, tg.id))
+                    continue
+            if isinstance(st, ast.Assign) and isinstance(st.targets[0], ast.Name) and isinstance(st.value, ast.ListComp):
+                sel = ast.unparse(st.value).replace(' ', '')
+                for neg, role in (('', 'rem_scope'), ('~', 'oth_scope')):
+                    if sel == f'[task.scope[i]fori,innp.argwhere({neg}{z})]':
+                        bound[st.targets[0].id] = role
+                        break
+                else:
+                    raise U(f'{kind}: unknown selection ' + ast.unparse(st))
+                continue
+            if isinstance(st, ast.Assign) and isinstance(st.targets[0], ast.Name) and st.targets[0].id == 'is_first':
+                ev.append(('is_first', st.value))
+                bound['is_first'] = 'is_first'
+                continue
+            if isinstance(st, ast.If) and not st.orelse and len(st.body) == 2 and isinstance(st.body[1], ast.Continue) \
+                    and isinstance(st.body[0], ast.Expr) and isinstance(st.body[0].value, ast.Call):
+                c = st.body[0].value
+                f = ast.unparse(c.func).replace(' ', '')
+                if f not in ('tasks.appendleft', 'tasks.append') or len(c.args) != 1:
+                    raise U(f'{kind}: the single-slice branch does not re-queue through tasks.append(left)')
+                ev.append(('requeue', st.test, f.split('.')[1], c.args[0]))
+                continue
+            if isinstance(st, ast.For) and len(st.body) == 1 and is_call_stmt(st.body[0], 'tasks.append') and not st.orelse:
+                ev.append(('subtasks', st, st.body[0].value.args[0]))
+                continue
+            if is_call_stmt(st, 'tasks.append') and len(st.value.args) == 1:
+                ev.append(('subtask1', st.value.args[0]))
+                continue
+            if isinstance(st, ast.Expr) and isinstance(st.value, ast.Call) and isinstance(st.value.func, ast.Attribute) \
+                    and st.value.func.attr == 'append' and ast.unparse(st.value.func.value).endswith('.children') and len(st.value.args) == 1:
+                par = ast.unparse(st.value.func.value)[:-len('.children')]
+                ch = ast.unparse(st.value.args[0])
+                ev.append(('attach', bound.get(par, par), bound.get(ch, ch)))
+                continue
+            raise U(f'learn_spn, {kind}: statement not understood: ' + ast.unparse(st).splitlines()[0])
+        return ev, bound
+
+    SIG = '{N D S : Type}'
+
+    def learn_split(kind, lean, second, node_cls):
+        def mk():
+            br, z, pop = learn_branches()
+            if kind not in br:
+                raise U(f'learn_spn: no branch for {kind}')
+            ev, bound = interp(br[kind], kind, z)
+            order = [e[0] for e in ev]
+            if order != ['oracle', 'split', 'requeue', 'node', 'subtasks', 'attach']:
+                raise U(f'learn_spn, {kind}: statements are not (splitter, split_*_clusters, single-slice re-queue, node, sub-tasks, attach) but {order}')
+            inv = {v: k for k, v in bound.items()}
+            sl, snd = inv['slices'], inv[second]
+            tr, fs = task_tr({sl: ('slices', ('list', 'data'))})
+            _, test, where, tcall = ev[2]
+            single = tr.as_bool(tr.tr(test))
+            req = task_literal(tr, fs, tcall)
+            _, cls, ctor, nname = ev[3]
+            if cls != node_cls:
+                raise U(f'learn_spn, {kind}: the node created is a {cls}, expected {node_cls}')
+            cargs = [ast.unparse(a) for a in ctor.args] + [f'{k.arg}={ast.unparse(k.value)}' for k in ctor.keywords]
+            want_args = ['task.scope'] + ([f'weights={snd}'] if second == 'weights' else [])
+            if cargs != want_args:
+                raise U(f'learn_spn, {kind}: the node is not built as {cls}({", ".join(want_args)})')
+            _, loop, tcall2 = ev[4]
+            env2 = {sl: ('slices', ('list', 'data')), nname: ('node', 'node')}
+            if second == 'scopes':
+                env2[snd] = ('scopes', ('list', 'scope'))
+            tr2, _ = task_tr(env2)
+            it = ast.unparse(loop.iter).replace(' ', '')
+            if it == sl and isinstance(loop.target, ast.Name):
+                sub = tr2.child(**{loop.target.id: (T.lid(loop.target.id), 'data')})
+                subt = f'(slices.map (fun {T.lid(loop.target.id)} => ({task_literal(sub, fs, tcall2)} : S3Task N D S)))'
+            elif it == f'enumerate({sl})' and isinstance(loop.target, ast.Tuple) and len(loop.target.elts) == 2:
+                i, d = [x.id for x in loop.target.elts]
+                sub = tr2.child(**{d: (T.lid(d), 'data'), i: (T.lid(i), 'int')})
+                subt = (f'(slices.zipIdx.map (fun p => let {T.lid(d)} := p.1; let {T.lid(i)} := ((p.2 : Nat) : Int);\n'
+                        f'    ({task_literal(sub, fs, tcall2)} : S3Task N D S)))')
+            else:
+                raise U(f'learn_spn, {kind}: the sub-task loop is not over the slices')
+            _, par, ch = ev[5]
+            if (par, ch) != ('task.parent', 'node'):
+                raise U(f'learn_spn, {kind}: the new node is not appended to task.parent.children but {ch} to {par}.children')
+            inh = ' [Inhabited S]' if second == 'scopes' else ''
+            extra = ' (scopes : List S)' if second == 'scopes' else ''
+            return (f'/-- `learn_spn`, {kind}: the test of the single-slice branch on the slices returned by `{ev[1][1]}` -/\n'
+                    f'def {lean}Single {{D : Type}} (slices : List D) : Bool := {single}\n'
+                    f'/-- … the task re-queued by that branch (followed by `continue`), and the deque method used -/\n'
+                    f'def {lean}Requeue {SIG} (task : S3Task N D S) : S3Task N D S :=\n  {req}\n'
+                    f'def {lean}RequeueAt : String := {T.lean_str(where)}\n'
+                    f'/-- … otherwise: the class of the node created from `task.scope`' + (' and the weights' if second == 'weights' else '') +
+                    ', the sub-tasks pushed with `tasks.append` (one per slice, in order), and the node is appended to `task.parent.children` -/\n'
+                    f'def {lean}NodeClass : String := {T.lean_str(cls)}\n'
+                    f'def {lean}Subtasks {SIG}{inh} (task : S3Task N D S) (node : N) (slices : List D){extra} : List (S3Task N D S) :=\n  {subt}')
+        o.const('learnspn.' + kind, mk)
+    learn_split('SPLIT_ROWS', 'S3learnRows', 'weights', 'Sum')
+    learn_split('SPLIT_COLS', 'S3learnCols', 'scopes', 'Product')
+
+    def learn_simple(kind, lean, func):
+        def mk():
+            br, z, pop = learn_branches()
+            if kind not in br:
+                raise U(f'learn_spn: no branch for {kind}')
+            ev, bound = interp(br[kind], kind, z)
+            if [e[0] for e in ev] != ['learned', 'attach']:
+                raise U(f'learn_spn, {kind}: statements are not (learn, attach) but {[e[0] for e in ev]}')
+            _, f, call, nm = ev[0]
+            args = [ast.unparse(a) for a in call.args]
+            if f != func or args != ['task.data', 'dists', 'doms', 'task.scope']:
+                raise U(f'learn_spn, {kind}: the node is not {func}(task.data, dists, doms, task.scope, …)')
+            if (ev[1][1], ev[1][2]) != ('task.parent', 'learned'):
+                raise U(f'learn_spn, {kind}: the learned node is not appended to task.parent.children')
+            return (f'/-- `learn_spn`, {kind}: `{func}(task.data, dists, doms, task.scope, …)` is appended to `task.parent.children`; no task is pushed: '
+                    f'(function, data, scope, parent) -/\n'
+                    f'def {lean} : String × String × String × String := ({T.lean_str(func)}, "task.data", "task.scope", "task.parent")')
+        o.const('learnspn.' + kind, mk)
+    learn_simple('CREATE_LEAF', 'S3learnLeaf', 'learn_leaf_func')
+    learn_simple('SPLIT_NAIVE', 'S3learnNaive', 'learn_naive_factorization')
+
+    def learn_rem():
+        kind = 'REM_FEATURES'
+        br, z, pop = learn_branches()
+        if kind not in br:
+            raise U(f'learn_spn: no branch for {kind}')
+        ev, bound = interp(br[kind], kind, z)
+        order = [e[0] for e in ev]
+        if order != ['node', 'learned', 'attach', 'is_first', 'subtask1', 'attach']:
+            raise U(f'learn_spn, {kind}: statements are not (node, naive, attach naive, is_first, sub-task, attach) but {order}')
+        _, cls, ctor, nname = ev[0]
+        if cls != 'Product' or [ast.unparse(a) for a in ctor.args] != ['task.scope'] or ctor.keywords:
+            raise U(f'learn_spn, {kind}: the node is not Product(task.scope)')
+        _, f, call, lname = ev[1]
+        inv = {v: k for k, v in bound.items()}
+        if f != 'learn_naive_factorization' or [ast.unparse(a) for a in call.args] != [f'task.data[:, {z}]', 'dists', 'doms', inv.get('rem_scope', '?')]:
+            raise U(f'learn_spn, {kind}: the removed features are not modelled by learn_naive_factorization(task.data[:, {z}], dists, doms, rem_scope, …)')
+        if (ev[2][1], ev[2][2]) != ('node', 'learned') or (ev[5][1], ev[5][2]) != ('task.parent', 'node'):
+            raise U(f'learn_spn, {kind}: attachments are not (naive under node, node under task.parent)')
+        tr, fs = task_tr({'tasks': ('tasks', ('list', 'task')), nname: ('node', 'node'), inv.get('oth_scope', '?'): ('othScope', 'scope')},
+                         syms={f'task.data[:, ~{z}]': ('othData', 'data')})
+        isf = tr.as_bool(tr.tr(ev[3][1]))
+        tr2 = tr.child(is_first=('is_first', 'bool'))
+        lit = task_literal(tr2, fs, ev[4][1])
+        return (f'/-- `learn_spn`, {kind}: `node = Product(task.scope)`, the naive factorisation of the removed features is its first child, then the '
+                'single sub-task pushed with `tasks.append` (othData = `task.data[:, ~mask]`, othScope = the scope entries where the mask is false, '
+                '`tasks` = the deque after the pop), then `node` is appended to `task.parent.children` -/\n'
+                f'def S3learnRemSubtask {SIG} (task : S3Task N D S) (tasks : List (S3Task N D S)) (node : N) (othData : D) (othScope : S) : S3Task N D S :=\n'
+                f'  let is_first := {isf};\n  {lit}')
+    o.const('learnspn.REM_FEATURES', learn_rem)
+
+    def learn_loop():
+        br, z, pop = learn_branches()
+        if pop != 'tasks.popleft()':
+            raise U('learn_spn: the next task is not taken with tasks.popleft()')
+        fn = T.find_func(learnspn, 'learn_spn')
+        r = T.the(T.returns(fn), 'return of learn_spn')
+        first = [c for c in ast.walk(fn) if isinstance(c, ast.Call) and ast.unparse(c.func) == 'tasks.append' and not any(
+            isinstance(a, ast.While) for a in T.ancestors(fn, c))]
+        init = T.the(T.the(first, 'initial tasks.append').args, 'initial task')
+        # the temporary parent: `<tmp> = Product(<scope>)` with `<scope> = list(range(n_features))`, both outside the loop
+        tmps = [(st.targets[0].id, ast.unparse(st.value.args[0])) for st in fn.body if isinstance(st, ast.Assign) and isinstance(st.targets[0], ast.Name)
+                and isinstance(st.value, ast.Call) and T.dotted_name(st.value.func) == 'Product' and len(st.value.args) == 1 and not st.value.keywords]
+        tmp, sc = T.the(tmps, 'temporary Product node of learn_spn')
+        if ast.unparse(T.the(T.assignments(fn, sc), sc)).replace(' ', '') != 'list(range(n_features))':
+            raise U('learn_spn: the initial scope is not list(range(n_features))')
+        tr, fs = task_tr({tmp: ('tmpNode', 'node'), 'data': ('data', 'data'), sc: ('initialScope', 'scope')})
+        lit = task_literal(tr, fs, init)
+        if not (isinstance(r, ast.Call) and T.dotted_name(r.func) == 'assign_ids' and len(r.args) == 1 and isinstance(r.args[0], ast.Name)):
+            raise U('learn_spn: does not return assign_ids(<name>)')
+        root = ast.unparse(T.the(T.assignments(fn, r.args[0].id), 'returned node')).replace(' ', '')
+        if root != f'{tmp}.children[0]':
+            raise U(f'learn_spn: the returned node is {root}, not the first child of the temporary node')
+        return ('/-- `learn_spn`: the next task is taken from the LEFT end of the deque; the operations in the order of the `if … elif` chain; '
+                'the initial task; the result is the first child of the temporary node -/\n'
+                f'def S3learnPop : String := {T.lean_str(pop)}\n'
+                f'def S3learnOps : List String := {T.lean_list([T.lean_str(k) for k in br])}\n'
+                f'def S3learnInitial {SIG} (tmpNode : N) (data : D) (initialScope : S) : S3Task N D S :=\n  {lit}\n'
+                'def S3learnResult : String := "tmpNode.children[0]"')
+    o.const('learnspn.loop', learn_loop)
+
+    # ---- (c) C18: BinaryCNet.log_likelihood — the routing loop ---------------------------------------------------------------
+    cnet = T.parse_file(repo, 'deeprob/spn/structure/cnet.py')
+
+    def cnet_loop():
+        q = 'BinaryCNet.log_likelihood'
+        fn = T.find_func(cnet, q)
+        a = args_of(fn, ('self', 'x'), q)
+        stmts = _skip_prologue(T, fn, [])
+        loop = T.the([s for s in stmts if isinstance(s, ast.While)], f'{q}: while loop')
+        k = stmts.index(loop)
+        pre = {T.target_key(s.targets[0]): ast.unparse(s.value).replace(' ', '') for s in stmts[:k] if isinstance(s, ast.Assign)}
+        if len(pre) != k:
+            raise U(f'{q}: statements before the loop are not all assignments')
+        stack = ast.unparse(loop.test)
+        acc = T.the([n for n, v in pre.items() if v.startswith('np.zeros(')], f'{q}: accumulator')
+        rootn = T.the([n for n, v in pre.items() if v in (f'copy.copy({a[0]})', f'copy({a[0]})')], f'{q}: root copy')
+        want = {f'(n_samples,n_features)': f'{a[1]}.shape', f'({rootn}.row_indices,{rootn}.col_indices)': '(np.arange(n_samples),np.arange(n_features))',
+                stack: f'[{rootn}]', acc: 'np.zeros(n_samples)', rootn: pre[rootn]}
+        if pre != want:
+            raise U(f'{q}: initialisation is not (rows = arange(n_samples), cols = arange(n_features), stack = [root], zeros(n_samples)) but {pre}')
+        if not (len(stmts) == k + 2 and isinstance(stmts[-1], ast.Return) and ast.unparse(stmts[-1].value) == acc):
+            raise U(f'{q}: the loop is not followed by `return {acc}`')
+        body = list(loop.body)
+        # node = stack.pop(0)
+        s0 = body.pop(0)
+        if not (isinstance(s0, ast.Assign) and isinstance(s0.targets[0], ast.Name) and ast.unparse(s0.value).replace(' ', '') == f'{stack}.pop(0)'):
+            raise U(f'{q}: the loop does not start with `<node> = {stack}.pop(0)`')
+        nd = s0.targets[0].id
+        s1 = body.pop(0)
+        if not (isinstance(s1, ast.Assign) and isinstance(s1.targets[0], ast.Name)
+                and ast.unparse(s1.value).replace(' ', '') == f'{a[1]}[{nd}.row_indices][:,{nd}.col_indices]'):
+            raise U(f'{q}: the partition is not x[node.row_indices][:, node.col_indices]')
+        part = s1.targets[0].id
+        s2 = body.pop(0)
+        leaf_txt = f'{acc}[{nd}.row_indices]+={nd}.clt.log_likelihood({part}).squeeze()'
+        if not (isinstance(s2, ast.If) and not s2.orelse and len(s2.body) == 2 and isinstance(s2.body[1], ast.Continue)
+                and ast.unparse(s2.test).replace(' ', '') in (f'{nd}.__is_leaf()', f'{nd}._BinaryCNet__is_leaf()')
+                and ast.unparse(s2.body[0]).replace(' ', '') == leaf_txt):
+            raise U(f'{q}: the leaf branch is not `if node.__is_leaf(): {leaf_txt}; continue`')
+        # symbolic execution of the OR-node part
+        tr = T.TrZ3(env={nd: ('node', 'obj')},
+                    attrs={'row_indices': ('rowIdx', ('list', 'item')), 'col_indices': ('colIdx', ('list', 'item'))},
+                    funcs={})
+        tr.syms[f'{nd}.row_indices'] = ('rowIdx', ('list', 'item'))
+        tr.syms[f'{nd}.col_indices'] = ('colIdx', ('list', 'item'))
+        lets, kids, pushes, adds = [], {}, [], []
+        idxname = None
+        for st in body:
+            txt = ast.unparse(st).replace(' ', '')
+            if isinstance(st, ast.Assign) and isinstance(st.targets[0], ast.Name):
+                nm, v = st.targets[0].id, st.value
+                if txt == f'{nm}={nd}.scope.index({nd}.or_id)':
+                    idxname = nm
+                    tr.env[nm] = ('nodeIdx', 'item')
+                    tr.syms[f'{part}[:,{nm}]'] = ('cutcol', ('list', 'int'))
+                    continue
+                for pat in (f'copy.copy({nd}.children[', f'copy({nd}.children['):
+                    if ast.unparse(v).replace(' ', '').startswith(pat) and isinstance(v.args[0], ast.Subscript):
+                        kids[nm] = int(T.const_value(v.args[0].slice))
+                        break
+                else:
+                    raise U(f'{q}: assignment not understood: ' + ast.unparse(st))
+                continue
+            if isinstance(st, ast.Assign) and isinstance(st.targets[0], ast.Attribute) and isinstance(st.targets[0].value, ast.Name) \
+                    and st.targets[0].value.id in kids and st.targets[0].attr in ('row_indices', 'col_indices'):
+                v = st.value
+                if isinstance(v, ast.Call) and (T.dotted_name(v.func) or '') == 'np.delete' and len(v.args) == 1 \
+                        and [kw.arg for kw in v.keywords] == ['obj']:
+                    arr, ty = tr.tr(v.args[0])
+                    ob, oty = tr.tr(v.keywords[0].value)
+                    if ty != ('list', 'item') or oty != 'item':
+                        raise U(f'{q}: np.delete is not applied to (indices, position)')
+                    term, ty = f'(Py3.delete {arr} {ob})', ('list', 'item')
+                else:
+                    term, ty = tr.tr(v)
+                if ty != ('list', 'item'):
+                    raise U(f'{q}: {ast.unparse(st.targets[0])} does not receive a list of indices')
+                lname = f'{st.targets[0].value.id}_{st.targets[0].attr}'
+                lets.append(f'let {lname} := {term};')
+                tr.syms[ast.unparse(st.targets[0]).replace(' ', '')] = (lname, ('list', 'item'))
+                continue
+            if isinstance(st, ast.AugAssign) and isinstance(st.op, ast.Add) and isinstance(st.target, ast.Subscript) and ast.unparse(st.target.value) == acc:
+                rows, rty = tr.tr(st.target.slice)
+                v = st.value
+                if not (rty == ('list', 'item') and isinstance(v, ast.Call) and (T.dotted_name(v.func) or '') == 'np.log' and len(v.args) == 1
+                        and isinstance(v.args[0], ast.Subscript) and ast.unparse(v.args[0].value) == f'{nd}.weights'):
+                    raise U(f'{q}: update of {acc} that is not `{acc}[<rows>] += np.log(node.weights[k])`')
+                adds.append((rows, int(T.const_value(v.args[0].slice))))
+                continue
+            if is_call_stmt(st, f'{stack}.append') and len(st.value.args) == 1 and isinstance(st.value.args[0], ast.Name) and st.value.args[0].id in kids:
+                c = st.value.args[0].id
+                if f'{c}.row_indices' not in tr.syms or f'{c}.col_indices' not in tr.syms:
+                    raise U(f'{q}: {c} is pushed before its row / column indices are set')
+                pushes.append((kids[c], tr.syms[f'{c}.row_indices'][0], tr.syms[f'{c}.col_indices'][0]))
+                continue
+            raise U(f'{q}: statement of the loop not understood: ' + ast.unparse(st).splitlines()[0])
+        if idxname is None or not pushes or not adds:
+            raise U(f'{q}: the OR-node part does not route, weigh and push')
+        body_l = '\n  '.join(lets)
+        pl = ', '.join(f'({k}, {r}, {c})' for k, r, c in pushes)
+        al = ', '.join(f'({r}, {k})' for r, k in adds)
+        return ('/-- `BinaryCNet.log_likelihood`, one iteration at an OR node (`node = node_stack.pop(0)`, not a leaf): rowIdx / colIdx = '
+                '`node.row_indices` / `node.col_indices`, nodeIdx = `node.scope.index(node.or_id)`, cutcol = `partition[:, node_idx]` (one value per '
+                'entry of rowIdx).  Result: the children pushed with `node_stack.append`, in order, as (k of `node.children[k]`, row indices, column '
+                'indices); and the updates `log_likes[rows] += np.log(node.weights[k])`, in order, as (rows, k) -/\n'
+                'def S3cnetOrStep (rowIdx colIdx : List Nat) (nodeIdx : Nat) (cutcol : List Int) :\n'
+                '    List (Nat × List Nat × List Nat) × List (List Nat × Nat) :=\n'
+                f'  {body_l}\n  ([{pl}], [{al}])\n'
+                '/-- … `node_idx` -/\n'
+                'def S3cnetNodeIdx (scope : List Nat) (orId : Nat) : Nat := scope.idxOf orId\n'
+                '/-- … the leaf branch `log_likes[node.row_indices] += node.clt.log_likelihood(partition).squeeze(); continue` (present, first in the '
+                'loop body after the partition), the pop side of the work list, the start: rows = `arange(n_samples)`, columns = '
+                '`arange(n_features)`, `log_likes = zeros(n_samples)`, work list `[root]` -/\n'
+                'def S3cnetLeafAdds : String × String := ("node.row_indices", "node.clt.log_likelihood(partition).squeeze()")\n'
+                'def S3cnetPop : String := "pop(0)"\n'
+                'def S3cnetInit (nSamples nFeatures : Nat) : List Nat × List Nat := (List.range nSamples, List.range nFeatures)')
+    o.const('cnet.log_likelihood', cnet_loop)
+
+    # ---- (d) C19: moments.moment / leaf_moment — the recursion reuses the evaluation recursion ------------------------------------
+    moments_py = T.parse_file(repo, 'deeprob/spn/algorithms/moments.py')
+
+    def moment_api():
+        fn = T.find_func(moments_py, 'moment')
+        a = args_of(fn, ('root', 'order'), 'moment')
+        imps = [al.name for st in moments_py.body if isinstance(st, ast.ImportFrom) and st.module == 'deeprob.spn.algorithms.inference' for al in st.names]
+        defs = [n.name for n in moments_py.body if isinstance(n, ast.FunctionDef)]
+        if 'node_likelihood' not in imps or 'node_likelihood' in defs:
+            raise U('moments.py: node_likelihood is not the function of algorithms/inference.py')
+        stmts = _skip_prologue(T, fn, [])
+        sc = T.the([s for s in stmts if isinstance(s, ast.Assign) and ast.unparse(s.value) == f'{a[0]}.scope'], 'moment: scope = root.scope')
+        scn = sc.targets[0].id
+        tr = T.TrZ(env={a[1]: ('order', 'int')})
+        cases, acts, mat = [], [], None
+        for st in stmts:
+            if st is sc:
+                continue
+            if isinstance(st, ast.If) and not st.orelse and len(st.body) == 1 and isinstance(st.body[0], (ast.Raise, ast.Return)):
+                if mat is not None:
+                    raise U('moment: a guard after the matrix of ones')
+                cases.append(tr.as_bool(tr.tr(st.test)))
+                if isinstance(st.body[0], ast.Raise):
+                    acts.append('raise')
+                else:
+                    r = ast.unparse(st.body[0].value).replace(' ', '')
+                    if r != f'np.ones(len({scn}),dtype=np.float32)':
+                        raise U('moment: early return is not np.ones(len(scope))')
+                    acts.append('ones')
+                continue
+            if isinstance(st, ast.Assign) and isinstance(st.targets[0], ast.Name) and mat is None:
+                if ast.unparse(st.value).replace(' ', '') != f'np.ones(shape=[len({scn}),len({scn})],dtype=np.float32)':
+                    raise U('moment: the input of the bottom-up pass is not np.ones(shape=[len(scope), len(scope)])')
+                mat = st.targets[0].id
+                continue
+            if isinstance(st, ast.Return) and st is stmts[-1] and mat is not None:
+                c = st.value
+                if not (isinstance(c, ast.Call) and T.dotted_name(c.func) == 'eval_bottom_up' and [ast.unparse(x) for x in c.args] == [a[0], mat]):
+                    raise U('moment: does not return eval_bottom_up(root, <ones>, …)')
+                kws = {k.arg: ast.unparse(k.value).replace(' ', '') for k in c.keywords}
+                if kws != {'leaf_func': 'leaf_moment', 'node_func': 'node_likelihood', 'leaf_func_kwargs': "{'order':" + a[1] + "}"}:
+                    raise U(f'moment: eval_bottom_up keywords are {kws}')
+                acts.append('bottom_up')
+                continue
+            raise U('moment: statement not understood: ' + ast.unparse(st).splitlines()[0])
+        if acts[-1:] != ['bottom_up']:
+            raise U('moment: no bottom-up pass')
+        body = ''.join(f'if {c} then {k}\n  else ' for k, c in enumerate(cases)) + str(len(cases))
+        return ('/-- `moments.moment(root, order)`: which of its exits is taken (index into `S3momentExits`); the bottom-up pass runs on '
+                '`np.ones([len(scope), len(scope)])` with `leaf_func=leaf_moment`, `node_func=node_likelihood` (of inference.py), `order` passed on -/\n'
+                f'def S3momentCase (order : Int) : Nat :=\n  {body}\n'
+                f'def S3momentExits : List String := {T.lean_list([T.lean_str(x) for x in acts])}\n'
+                'def S3momentNodeFunc : String := "inference.node_likelihood"')
+    o.const('moments.moment', moment_api)
+
+    def leaf_moment():
+        fn = T.find_func(moments_py, 'leaf_moment')
+        a = args_of(fn, ('node', 'x', 'order'), 'leaf_moment')
+        def mom(tr, call):
+            kws = {k.arg: ast.unparse(k.value) for k in call.keywords}
+            args = [ast.unparse(x) for x in call.args]
+            if not ((kws == {'k': a[2]} and not args) or (args == [a[2]] and not kws)):
+                raise U('leaf_moment: node.moment is not called with the order')
+            return '(leafMoment v)', 'num', 'P0'
+        tr = T.TrA(env={a[1]: ('x', 'num', 'R')}, syms={f'{a[0]}.scope': ('scope', 'idx', 'P1')}, funcs={f'{a[0]}.moment': mom})
+        tr.rowvar = 'v'
+        body, _ = tr.body_value(fn, want=('num', 'R'))
+        return ('/-- `moments.leaf_moment(node, x, order)`, entry `v` of the returned vector (one entry per variable, `len(x)` = number of '
+                'variables): scope = `node.scope`, `leafMoment v` = the entry of `node.moment(k=order)` stored at position `v` -/\n'
+                f'def S3leafMoment (scope : List Nat) (leafMoment : Nat → F) (v : Nat) : F :=\n  {body}')
+    o.formula('moments.leaf_moment', leaf_moment)
+
+    # ---- (e) C20: SPNClassifier.predict_log_proba / predict_proba / predict ---------------------------------------------------------
+    sk = T.parse_file(repo, 'deeprob/spn/models/sklearn.py')
+
+    def nan_column(e, xname):
+        """`np.hstack([X, <NaN column of len(X) rows>])` -> True"""
+        t = ast.unparse(e).replace(' ', '')
+        return t in (f'np.hstack([{xname},np.tile(np.nan,[len({xname}),1])])', f'np.hstack([{xname},np.full([len({xname}),1],np.nan)])')
+
+    def predict_log_proba():
+        q = 'SPNClassifier.predict_log_proba'
+        fn = T.find_func(sk, q)
+        a = args_of(fn, ('self', 'X'), q)
+        imps = [al.name for st in sk.body if isinstance(st, ast.ImportFrom) and st.module == 'scipy.special' for al in st.names]
+        if 'log_softmax' not in imps:
+            raise U('sklearn.py: log_softmax is not imported from scipy.special')
+        stmts = _skip_prologue(T, fn, [])
+        if len(stmts) < 4:
+            raise U(f'{q}: too few statements')
+        d, l, c = stmts[0], stmts[1], stmts[2]
+        if not (isinstance(d, ast.Assign) and isinstance(d.targets[0], ast.Name) and nan_column(d.value, a[1])):
+            raise U(f'{q}: the evaluated data is not np.hstack([X, <NaN column>]) (label last, missing)')
+        dn = d.targets[0].id
+        if not (isinstance(l, ast.Assign) and isinstance(l.targets[0], ast.Tuple) and len(l.targets[0].elts) == 2
+                and ast.unparse(l.value).replace(' ', '') == f'log_likelihood({a[0]}.spn_,{dn},return_results=True)'):
+            raise U(f'{q}: the node values are not `_, lls = log_likelihood(self.spn_, data, return_results=True)`')
+        ln = l.targets[0].elts[1].id
+        if not (isinstance(c, ast.Assign) and isinstance(c.targets[0], ast.Name) and isinstance(c.value, ast.ListComp)
+                and len(c.value.generators) == 1 and not c.value.generators[0].ifs
+                and ast.unparse(c.value.generators[0].iter) == f'{a[0]}.spn_.children'
+                and ast.unparse(c.value.elt) == ast.unparse(c.value.generators[0].target) + '.id'):
+            raise U(f'{q}: the class rows are not selected by [c.id for c in self.spn_.children]')
+        cn = c.targets[0].id
+        tr = T.TrA(syms={f'{ln}[{cn}]': ('lls', 'num', 'CV'), f'{a[0]}.spn_.weights': ('w', 'num', 'P1')})
+        rest = ast.FunctionDef(name='predict_log_proba', body=stmts[3:])
+        body, _ = tr.body_value(rest, want=('num', 'RV'))
+        return ('/-- `SPNClassifier.predict_log_proba` on one row of `X`: the label is appended as the LAST column and is missing; w = `self.spn_.weights`, '
+                'lls = that row of `lls[class_ids].T` (log-value of every child of the root, in child order) -/\n'
+                f'def S3predictLogProba (w lls : List F) : List F :=\n  {body}')
+    o.formula('sklearn.predict_log_proba', predict_log_proba)
+
+    def predict_proba():
+        q = 'SPNClassifier.predict_proba'
+        predict_log_proba()        # the definition below mentions S3predictLogProba: no predict_proba without it
+        fn = T.find_func(sk, q)
+        a = args_of(fn, ('self', 'X'), q)
+        def plp(tr, call):
+            if [ast.unparse(x) for x in call.args] != [a[1]] or call.keywords:
+                raise U(f'{q}: predict_log_proba is not applied to X')
+            return '(S3predictLogProba E w lls)', 'num', 'RV'
+        tr = T.TrA(funcs={f'{a[0]}.predict_log_proba': plp})
+        body, _ = tr.body_value(fn, want=('num', 'RV'))
+        return ('/-- `SPNClassifier.predict_proba` on one row of `X` -/\n'
+                f'def S3predictProba (w lls : List F) : List F :=\n  {body}')
+    o.formula('sklearn.predict_proba', predict_proba)
+
+    def predict():
+        q = 'SPNClassifier.predict'
+        fn = T.find_func(sk, q)
+        a = args_of(fn, ('self', 'X'), q)
+        stmts = _skip_prologue(T, fn, [])
+        if len(stmts) != 3:
+            raise U(f'{q}: expected (data, mpe, return)')
+        d, m, r = stmts
+        if not (isinstance(d, ast.Assign) and isinstance(d.targets[0], ast.Name) and nan_column(d.value, a[1])):
+            raise U(f'{q}: the completed data is not np.hstack([X, <NaN column>])')
+        dn = d.targets[0].id
+        imps = [al.name for st in sk.body if isinstance(st, ast.ImportFrom) and st.module == 'deeprob.spn.algorithms.inference' for al in st.names]
+        if 'mpe' not in imps:
+            raise U('sklearn.py: mpe is not imported from algorithms/inference.py')
+        if not (isinstance(m, ast.Expr) and ast.unparse(m.value).replace(' ', '') == f'mpe({a[0]}.spn_,{dn},inplace=True)'):
+            raise U(f'{q}: the completion is not mpe(self.spn_, data, inplace=True)')
+        if not (isinstance(r, ast.Return) and ast.unparse(r.value).replace(' ', '') == f'{dn}[:,-1]'):
+            raise U(f'{q}: does not return the last column of the completed data')
+        return ('/-- `SPNClassifier.predict`: the label is appended as the last column, missing; the rows are completed in place by `inference.mpe` on the '
+                'classifier\'s circuit; the last column is returned -/\n'
+                'def S3predictSteps : List String := ["hstack([X, nan])", "inference.mpe(spn, data, inplace=True)", "data[:, -1]"]')
+    o.const('sklearn.predict', predict)
+
+    # ---- (f) C13: io.spn_to_digraph / digraph_to_spn — which attributes are written, rounding, edge attribute, child placement ----------
+    io = T.parse_file(repo, 'deeprob/spn/structure/io.py')
+
+    def round_digits(e, var):
+        """`round(float(<var>), d)` / `round(<var>, d)` -> d"""
+        if isinstance(e, ast.Call) and T.dotted_name(e.func) == 'round' and len(e.args) == 2 and not e.keywords:
+            x = e.args[0]
+            if isinstance(x, ast.Call) and T.dotted_name(x.func) == 'float' and len(x.args) == 1:
+                x = x.args[0]
+            if isinstance(x, ast.Name) and x.id == var:
+                d = T.const_value(e.args[1])
+                if d.denominator == 1 and d >= 0:
+                    return int(d)
+        raise U('not round(<value>, <digits>): ' + ast.unparse(e))
+
+    def dict_items(e, what):
+        if not (isinstance(e, ast.Dict) and all(isinstance(k, ast.Constant) and isinstance(k.value, str) for k in e.keys)):
+            raise U(f'{what}: attr is not a dictionary literal with string keys')
+        return [(k.value, ast.unparse(v)) for k, v in zip(e.keys, e.values)]
+
+    def io_write():
+        q = 'spn_to_digraph'
+        fn = T.find_func(io, q)
+        loops = [s for s in fn.body if isinstance(s, ast.For)]
+        if len(loops) != 2 or any(ast.unparse(l.iter) != 'nodes' or not isinstance(l.target, ast.Name) for l in loops):
+            raise U(f'{q}: expected the node loop and the edge loop over `nodes`')
+        if ast.unparse(T.the(T.assignments(fn, 'nodes'), 'nodes')).replace(' ', '') != 'topological_order(root)':
+            raise U(f'{q}: nodes is not topological_order(root)')
+        nl, el = loops
+        nd = nl.target.id
+        if len(nl.body) != 2 or not isinstance(nl.body[0], ast.If):
+            raise U(f'{q}: the node loop is not (class cases, add_node)')
+        if ast.unparse(nl.body[1]).replace(' ', '') != f'graph.add_node({nd}.id,**attr)':
+            raise U(f'{q}: the node is not added with graph.add_node(node.id, **attr)')
+        cases, cur = {}, nl.body[0]
+        while True:
+            t = ast.unparse(cur.test).replace(' ', '')
+            pre = f'isinstance({nd},'
+            if not (t.startswith(pre) and t.endswith(')')):
+                raise U(f'{q}: a case of the node loop is not an isinstance test')
+            cases[t[len(pre):-1]] = cur.body
+            if len(cur.orelse) == 1 and isinstance(cur.orelse[0], ast.If):
+                cur = cur.orelse[0]
+            else:
+                if not (len(cur.orelse) == 1 and isinstance(cur.orelse[0], ast.Raise)):
+                    raise U(f'{q}: the class cases do not end with a raise')
+                break
+        if list(cases) != ['Sum', 'Product', 'Leaf']:
+            raise U(f'{q}: class cases are {list(cases)}')
+        # Sum: weights = [round(float(w), 8) for w in node.weights]; attr = {...}
+        sb = cases['Sum']
+        if not (len(sb) == 2 and all(isinstance(s, ast.Assign) for s in sb) and isinstance(sb[0].value, ast.ListComp)
+                and len(sb[0].value.generators) == 1 and not sb[0].value.generators[0].ifs
+                and ast.unparse(sb[0].value.generators[0].iter) == f'{nd}.weights' and isinstance(sb[0].value.generators[0].target, ast.Name)):
+            raise U(f'{q}: Sum case is not (rounded weights, attr)')
+        wd = round_digits(sb[0].value.elt, sb[0].value.generators[0].target.id)
+        wname = sb[0].targets[0].id
+        sum_attr = [(k, ('<rounded weights>' if v == wname else v)) for k, v in dict_items(sb[1].value, 'Sum')]
+        pb = cases['Product']
+        if not (len(pb) == 1 and isinstance(pb[0], ast.Assign)):
+            raise U(f'{q}: Product case is not a single attr assignment')
+        prod_attr = dict_items(pb[0].value, 'Product')
+        # Leaf: params = node.params_dict(); for name, value in params.items(): <cases>; attr = {...}
+        lb = cases['Leaf']
+        if not (len(lb) == 3 and isinstance(lb[0], ast.Assign) and ast.unparse(lb[0].value).replace(' ', '') == f'{nd}.params_dict()'
+                and isinstance(lb[1], ast.For) and isinstance(lb[2], ast.Assign)):
+            raise U(f'{q}: Leaf case is not (params_dict, conversion loop, attr)')
+        pn = lb[0].targets[0].id
+        lp = lb[1]
+        if not (ast.unparse(lp.iter).replace(' ', '') == f'{pn}.items()' and isinstance(lp.target, ast.Tuple) and len(lp.target.elts) == 2):
+            raise U(f'{q}: the conversion loop is not over params.items()')
+        kn, vn = [x.id for x in lp.target.elts]
+        conv = []
+        def leafcases(st, path):
+            import re
+            t = re.sub(r'\b' + re.escape(vn) + r'\b', 'value', ast.unparse(st.test))
+            for b in st.body:
+                if isinstance(b, ast.If):
+                    leafcases(b, path + [t])
+                elif isinstance(b, ast.Assign) and ast.unparse(b.targets[0]).replace(' ', '') == f'{pn}[{kn}]':
+                    v = b.value
+                    vt = ast.unparse(v).replace(' ', '')
+                    if vt == f'{vn}.tolist()':
+                        act = 'tolist'
+                    elif isinstance(v, ast.Call) and isinstance(v.func, ast.Attribute) and v.func.attr == 'tolist' and isinstance(v.func.value, ast.Call) \
+                            and (T.dotted_name(v.func.value.func) or '') in ('np.around', 'np.round') and len(v.func.value.args) == 2 \
+                            and ast.unparse(v.func.value.args[0]) == vn:
+                        act = f'around{int(T.const_value(v.func.value.args[1]))}.tolist'
+                    else:
+                        act = f'round{round_digits(v, vn)}'
+                    conv.append((' and '.join(path + [t]), act))
+                elif isinstance(b, ast.Assign) and ast.unparse(b.targets[0]) == vn and ast.unparse(b.value).replace(' ', '') == f'{vn}.astype(np.float64)':
+                    continue
+                else:
+                    raise U(f'{q}: statement of the parameter conversion not understood: ' + ast.unparse(b).splitlines()[0])
+            if len(st.orelse) == 1 and isinstance(st.orelse[0], ast.If):
+                leafcases(st.orelse[0], path)
+            elif st.orelse:
+                for b in st.orelse:
+                    if isinstance(b, ast.Assign) and ast.unparse(b.targets[0]).replace(' ', '') == f'{pn}[{kn}]' and ast.unparse(b.value).replace(' ', '') == f'{vn}.tolist()':
+                        conv.append((' and '.join(path + ['not ' + t]), 'tolist'))
+                    else:
+                        raise U(f'{q}: else branch of the parameter conversion not understood')
+        if not (len(lp.body) == 1 and isinstance(lp.body[0], ast.If)):
+            raise U(f'{q}: the conversion loop body is not one if-chain')
+        leafcases(lp.body[0], [])
+        leaf_attr = [(k, ('<converted params>' if v == pn else v)) for k, v in dict_items(lb[2].value, 'Leaf')]
+        # edges
+        if not (len(el.body) == 1 and isinstance(el.body[0], ast.For) and len(el.body[0].body) == 1):
+            raise U(f'{q}: the edge loop is not a nested loop with one statement')
+        en, il = el.target.id, el.body[0]
+        if not (ast.unparse(il.iter).replace(' ', '') == f'enumerate({en}.children)' and isinstance(il.target, ast.Tuple) and len(il.target.elts) == 2):
+            raise U(f'{q}: the inner edge loop is not over enumerate(node.children)')
+        i, c = [x.id for x in il.target.elts]
+        call = il.body[0].value if isinstance(il.body[0], ast.Expr) else None
+        if not (isinstance(call, ast.Call) and ast.unparse(call.func) == 'graph.add_edge' and len(call.args) == 2 and [k.arg for k in call.keywords] == ['idx']):
+            raise U(f'{q}: edges are not added with graph.add_edge(u, v, idx=…)')
+        tz = T.TrZ(env={c: (T.lid(c), 'obj'), en: ('node', 'obj'), i: (T.lid(i), 'int')}, attrs={'id': ('nid', 'item')})
+        u, v, ix = tz.tr(call.args[0]), tz.tr(call.args[1]), tz.tr(call.keywords[0].value)
+        if (u[1], v[1], ix[1]) != ('item', 'item', 'int'):
+            raise U(f'{q}: add_edge arguments are not (node id, node id, idx=position)')
+        pairs = lambda xs: T.lean_list([f'({T.lean_str(a)}, {T.lean_str(b)})' for a, b in xs])
+        return ('/-- `io.spn_to_digraph`, Sum node: the attribute dictionary (key, value) in order, and the stored weights (`roundN d` = `round(·, d)`) -/\n'
+                f'def S3ioSumAttr : List (String × String) := {pairs(sum_attr)}\n'
+                f'def S3ioSumWeights {{Q : Type}} (roundN : Nat → Q → Q) (weights : List Q) : List Q := weights.map (fun w => roundN {wd} w)\n'
+                '/-- … Product node, Leaf node: attribute dictionaries; the conversion applied to each entry of `params_dict()` (test, action) -/\n'
+                f'def S3ioProductAttr : List (String × String) := {pairs(prod_attr)}\n'
+                f'def S3ioLeafAttr : List (String × String) := {pairs(leaf_attr)}\n'
+                f'def S3ioLeafParamConv : List (String × String) := {pairs(conv)}\n'
+                '/-- … the edges added for one node, in order: `graph.add_edge(u, v, idx=k)` as (u, v, k) -/\n'
+                'def S3ioEdges {N : Type} (nid : N → Nat) (children : N → List N) (node : N) : List (Nat × Nat × Int) :=\n'
+                f'  (children node).zipIdx.map (fun p => let {T.lid(c)} := p.1; let {T.lid(i)} := ((p.2 : Nat) : Int); ({u[0]}, {v[0]}, {ix[0]}))')
+    o.const('io.spn_to_digraph', io_write)
+
+    def io_read():
+        q = 'digraph_to_spn'
+        fn = T.find_func(io, q)
+        loops = [s for s in fn.body if isinstance(s, ast.For)]
+        if len(loops) != 2:
+            raise U(f'{q}: expected the node loop and the edge loop')
+        nl, el = loops
+        if ast.unparse(nl.iter) != 'graph.nodes' or not isinstance(nl.target, ast.Name):
+            raise U(f'{q}: the node loop is not over graph.nodes')
+        nid = nl.target.id
+        # constructors per class
+        ch = T.the([s for s in nl.body if isinstance(s, ast.If)], f'{q}: class cases')
+        ctor, cur = [], ch
+        keys = {T.target_key(s.targets[0]): ast.unparse(s.value).replace(' ', '') for s in nl.body if isinstance(s, ast.Assign)}
+        while True:
+            b = T.the(cur.body, 'constructor statement')
+            ctor.append((ast.unparse(cur.test), ast.unparse(b.value) if isinstance(b, ast.Assign) and T.target_key(b.targets[0]) == 'node' else '?'))
+            if len(cur.orelse) == 1 and isinstance(cur.orelse[0], ast.If):
+                cur = cur.orelse[0]
+            else:
+                if not (len(cur.orelse) == 1 and isinstance(cur.orelse[0], ast.Raise)):
+                    raise U(f'{q}: the class cases do not end with a raise')
+                break
+        if keys.get('attr') != f'graph.nodes[{nid}]' or keys.get('name') != "attr['class']" or keys.get('scope') != "attr['scope']" \
+                or keys.get('node.id') != nid or keys.get(f'nodes[{nid}]') != 'node':
+            raise U(f'{q}: the node loop does not read class / scope from the attributes and store the node under its id: {keys}')
+        # edge loop
+        if not (isinstance(el.target, ast.Tuple) and len(el.target.elts) == 2 and ast.unparse(el.iter) == 'graph.edges'):
+            raise U(f'{q}: the edge loop is not `for u, v in graph.edges`')
+        u, v = [x.id for x in el.target.elts]
+        body = list(el.body)
+        if len(body) != 5:
+            raise U(f'{q}: the edge loop body is not (idx, parent, length, padding, store)')
+        s_idx, s_par, s_len, s_pad, s_store = body
+        if not (isinstance(s_idx, ast.Assign) and ast.unparse(s_idx.value).replace(' ', '') == f"graph.edges[{u},{v}]['idx']"):
+            raise U(f'{q}: idx is not read from the edge attribute idx')
+        ix = s_idx.targets[0].id
+        if not (isinstance(s_par, ast.Assign) and isinstance(s_par.value, ast.Subscript) and ast.unparse(s_par.value.value) == 'nodes'
+                and ast.unparse(s_par.value.slice) in (u, v)):
+            raise U(f'{q}: the parent is not looked up in nodes')
+        pn, par = s_par.targets[0].id, ast.unparse(s_par.value.slice)
+        chd = u if par == v else v
+        if not (isinstance(s_len, ast.Assign) and ast.unparse(s_len.value).replace(' ', '') == f'len({pn}.children)'):
+            raise U(f'{q}: the current number of children is not len(parent.children)')
+        ln = s_len.targets[0].id
+        tz = T.TrZ(env={ix: ('idx', 'int'), ln: (T.lid(ln), 'int')})
+        if not (isinstance(s_pad, ast.If) and not s_pad.orelse and len(s_pad.body) == 1 and isinstance(s_pad.body[0], ast.Expr)):
+            raise U(f'{q}: no padding test')
+        test = tz.as_bool(tz.tr(s_pad.test))
+        ext = s_pad.body[0].value
+        if not (isinstance(ext, ast.Call) and ast.unparse(ext.func) == f'{pn}.children.extend' and len(ext.args) == 1 and isinstance(ext.args[0], ast.BinOp)
+                and isinstance(ext.args[0].op, ast.Mult) and ast.unparse(ext.args[0].left) == '[None]'):
+            raise U(f'{q}: padding is not parent.children.extend([None] * k)')
+        k = tz.as_int(tz.tr(ext.args[0].right))
+        if ast.unparse(s_store).replace(' ', '') != f'{pn}.children[{ix}]=nodes[{chd}]':
+            raise U(f'{q}: the child is not stored at parent.children[idx]')
+        r = T.the(T.returns(fn), 'return')
+        pairs = lambda xs: T.lean_list([f'({T.lean_str(a)}, {T.lean_str(b)})' for a, b in xs])
+        return ('/-- `io.digraph_to_spn`: constructor per class (test, call); the roles of the two ends of an edge `(u, v)`; what is returned -/\n'
+                f'def S3ioCtors : List (String × String) := {pairs(ctor)}\n'
+                f'def S3ioEdgeEnds : String × String := ({T.lean_str("child" if chd == u else "parent")}, {T.lean_str("parent" if par == v else "child")})\n'
+                f'def S3ioReturned : String := {T.lean_str(ast.unparse(r))}\n'
+                '/-- … one edge: `children` = `parent_node.children` before, `idx` = the edge attribute, `child` = `nodes[child_id]` -/\n'
+                'def S3ioPlace {β : Type} (children : List (Option β)) (idx : Int) (child : β) : List (Option β) :=\n'
+                f'  let {T.lid(ln)} := ((children.length : Nat) : Int);\n'
+                f'  let children := if {test} then children ++ List.replicate ({k}).toNat none else children;\n'
+                '  children.set idx.toNat (some child)')
+    o.const('io.digraph_to_spn', io_read)
+
+    # ---- (g) C14: expectation_maximization — the responsibilities handed to em_step ------------------------------------------------
+    em_py = T.parse_file(repo, 'deeprob/spn/learning/em.py')
+
+    def em_resp():
+        q = 'expectation_maximization'
+        fn = T.find_func(em_py, q)
+        outer = [s for s in fn.body if isinstance(s, ast.For)]
+        it = T.the([s for s in outer if any(isinstance(x, ast.Call) and (T.dotted_name(x.func) or '') == 'eval_backward' for x in ast.walk(s))],
+                   f'{q}: iteration loop')
+        # forward and backward passes
+        fw = [s for s in ast.walk(it) if isinstance(s, ast.Assign) and isinstance(s.value, ast.Call) and T.dotted_name(s.value.func) == 'log_likelihood']
+        fw = T.the(fw, f'{q}: forward pass')
+        if not (isinstance(fw.targets[0], ast.Tuple) and len(fw.targets[0].elts) == 2 and len(fw.value.args) == 2 and ast.unparse(fw.value.args[0]) == 'root'
+                and [(k.arg, ast.unparse(k.value)) for k in fw.value.keywords] == [('return_results', 'True')]):
+            raise U(f'{q}: the forward pass is not `root_ll, lls = log_likelihood(root, <batch>, return_results=True)`')
+        rl, ll = [x.id for x in fw.targets[0].elts]
+        batch = ast.unparse(fw.value.args[1])
+        bw = T.the([s for s in it.body if isinstance(s, ast.Assign) and isinstance(s.value, ast.Call) and T.dotted_name(s.value.func) == 'eval_backward'],
+                   f'{q}: backward pass')
+        if [ast.unparse(x) for x in bw.value.args] != ['root', ll] or bw.value.keywords:
+            raise U(f'{q}: the backward pass is not eval_backward(root, lls)')
+        gr = bw.targets[0].id
+        loops = {ast.unparse(s.iter).replace(' ', ''): s for s in it.body if isinstance(s, ast.For)}
+        if set(loops) != {"cached_nodes['sum']", "cached_nodes['leaf']"}:
+            raise U(f'{q}: the update loops are not over cached_nodes["sum"] and cached_nodes["leaf"]: {sorted(loops)}')
+        cache = T.the(T.assignments(fn, 'cached_nodes'), 'cached_nodes')
+        if ast.unparse(cache).replace(' ', '') != "{'sum':filter_nodes_by_type(root,Sum),'leaf':filter_nodes_by_type(root,Leaf)}":
+            raise U(f'{q}: cached_nodes is not the (Sum, Leaf) filter of the circuit')
+        ls, lf = loops["cached_nodes['sum']"], loops["cached_nodes['leaf']"]
+        if list(it.body).index(ls) > list(it.body).index(lf):
+            raise U(f'{q}: leaves are updated before the sums')
+        n = ls.target.id
+        if len(ls.body) != 3:
+            raise U(f'{q}: the sum loop is not (children rows, stats, em_step)')
+        c_st, s_st, call = ls.body
+        if not (isinstance(c_st, ast.Assign) and ast.unparse(c_st.value).replace(' ', '') in
+                (f'{ll}[list(map(lambdac:c.id,{n}.children))]', f'{ll}[[c.idforcin{n}.children]]')):
+            raise U(f'{q}: the children rows are not lls[<ids of node.children in order>]')
+        cl = c_st.targets[0].id
+        st = s_st.targets[0].id
+        tr = T.Tr(syms={cl: 'lc', rl: 'lr', f'{gr}[{n}.id]': 'g'})
+        f_sum = tr.tr(s_st.value)
+        if ast.unparse(call).replace(' ', '') != f'{n}.em_step({st},step_size)':
+            raise U(f'{q}: sums are not updated by node.em_step(stats, step_size)')
+        m = lf.target.id
+        if len(lf.body) != 2:
+            raise U(f'{q}: the leaf loop is not (stats, em_step)')
+        s2, call2 = lf.body
+        st2 = s2.targets[0].id
+        tr2 = T.Tr(syms={f'{ll}[{m}.id]': 'ln', rl: 'lr', f'{gr}[{m}.id]': 'g'})
+        f_leaf = tr2.tr(s2.value)
+        if ast.unparse(call2).replace(' ', '') != f'{m}.em_step({st2},{batch}[:,{m}.scope],step_size)':
+            raise U(f'{q}: leaves are not updated by node.em_step(stats, <batch>[:, node.scope], step_size)')
+        return ['/-- `expectation_maximization`, sum loop: entry (child, row) of `stats`; lc = log-value of the child, lr = `root_ll`, g = `grads[node.id]` '
+                '(all of that row); children rows are taken in child order; `grads = eval_backward(root, lls)` -/\n'
+                f'def S3emRespSum (lc lr g : F) : F := {f_sum}',
+                '/-- `expectation_maximization`, leaf loop: entry (row) of `stats`; ln = `lls[node.id]`; the data handed over is `batch[:, node.scope]` -/\n'
+                f'def S3emRespLeaf (ln lr g : F) : F := {f_leaf}']
+    o.formula('em.responsibilities', em_resp)
